@@ -89,6 +89,7 @@ func Start(prop, part string) *Run {
 	} else {
 		r.out = os.Stdout
 	}
+	startWatchdog()
 	return r
 }
 
@@ -136,6 +137,7 @@ func (r *Run) Begin(id string) {
 	if gcOff && n%64 == 0 {
 		runtime.GC()
 	}
+	markCase(id)
 	if r.cur != nil {
 		b := make([]byte, 512)
 		for i := range b {
@@ -290,7 +292,14 @@ func TrimStack(s string) string {
 // Finish writes the shard summary.  A shard without a summary line is treated
 // by ./check as having died.
 func (r *Run) Finish() {
+	markCase("(after the last case)")
 	r.mu.Lock()
+	if v := maxCaseCPU.Load() / 1e6; v > r.maxes["case_cpu_ms_max"] {
+		r.maxes["case_cpu_ms_max"] = v
+	}
+	if v := maxCaseHeap.Load() >> 20; v > r.maxes["case_heap_growth_mib_max"] {
+		r.maxes["case_heap_growth_mib_max"] = v
+	}
 	dist := map[string]int{}
 	for k, v := range r.distinct {
 		dist[k] = len(v)
